@@ -82,6 +82,11 @@ def check(ctx):
     ctx.rule("C03-K", "the DOM walk drops a subtree (TreeMapResult::Nothing) only at the reviewed kinds of sites: non-element nodes, "
              "the ignored element names, display:none, an image without alt or src, the pass-through of an inner Nothing")
     ctx.guard("C03-K", rule_k)
+    ctx.rule("C03-L", "an error while rendering is never turned into silence: the Result of every fallible call of the crate is "
+             "propagated (`?`) or returned — a handled TooNarrow would let the rendering succeed with the text of the failed "
+             "block missing (shared with C11-G)")
+    from . import C11
+    ctx.guard("C03-L", C11.rule_g_as, "C03-L")
     for rid, fn in (("C03-A", rule_a), ("C03-B", rule_b), ("C03-C", rule_c), ("C03-D", rule_d), ("C03-E", rule_e),
                     ("C03-G", rule_g)):
         ctx.guard(rid, fn)
